@@ -161,11 +161,11 @@ Section Recv.
 
   (* native FX: success credits exactly the amount as the native coin, hex or bech32 receiver alike *)
   Lemma recv_success_fx p s s' :
-    recv isender p s = (s', true) -> ip_denom p = DFx -> 0 <= ip_recv p ->
+    recv isender p s = (s', true) -> ip_denom p = DFx -> 0 <= ip_recv p -> 0 <= ip_dst p ->
     0 < ip_amt p /\ ibal s' (ip_recv p, AFx, 0) = ibal s (ip_recv p, AFx, 0) + ip_amt p /\
     (forall k a, (k, a) <> (AFx, 0) -> ibal s' (ip_recv p, k, a) = ibal s (ip_recv p, k, a)).
   Proof.
-    rewrite recv_unfold. intros H Hfx Hpos.
+    rewrite recv_unfold. intros H Hfx Hpos Hdst.
     destruct (ip_addr_ok p) eqn:Eaddr; cbv beta iota delta [negb] in H; [|inversion H].
     destruct (transfer_recv p s) as [c1|c1] eqn:Et; [|inversion H].
     destruct (hook_recv isender p c1) as [c2|c2] eqn:Eh; inversion H; subst s'. clear H.
@@ -235,3 +235,443 @@ Section Recv.
     - intros Hin. destruct (Hconv _ Hin) as [|(r&t&n&E)]; [auto|discriminate].
   Qed.
 End Recv.
+
+(* ------------------------------------------------------------------------------------------ *)
+(** * the exactly-once argument over all operation lists *)
+
+Lemma count_app {A} (f : A -> bool) l1 l2 : count f (l1 ++ l2) = (count f l1 + count f l2)%nat.
+Proof. unfold count. rewrite filter_app, app_length. reflexivity. Qed.
+
+Section Runs.
+  Variable isender : Z -> Z -> Z.
+
+  Definition benign (e : event) : Prop :=
+    (exists r t n, e = EvCredit r t n) \/ (exists c sd, e = EvCall (isender c sd)).
+
+  (* what one operation can do to (relation set, send sequences, ghost log) *)
+  Inductive eff (s s' : ist) : Prop :=
+  | EffSame (evs : list event) :
+      rel s' = rel s -> (forall c, nextseq s' c = nextseq s c) -> ilog s' = ilog s ++ evs ->
+      (forall e, In e evs -> benign e) -> eff s s'
+  | EffSendEvm (c : Z) :
+      rel s' = (c, nextseq s c) :: rel s ->
+      (forall c', nextseq s' c' = if c' =? c then nextseq s c + 1 else nextseq s c') ->
+      ilog s' = ilog s ++ [EvSendEvm c (nextseq s c)] -> eff s s'
+  | EffSendPlain (c : Z) :
+      rel s' = rel s ->
+      (forall c', nextseq s' c' = if c' =? c then nextseq s c + 1 else nextseq s c') ->
+      ilog s' = ilog s -> eff s s'
+  | EffReconv (c q who t n : Z) :
+      In (c, q) (rel s) -> rel s' = del_rel (rel s) c q -> (forall c', nextseq s' c' = nextseq s c') ->
+      ilog s' = ilog s ++ [EvReconv c q who t n] -> eff s s'.
+
+  Lemma eff_refl s : eff s s.
+  Proof. apply (EffSame s s []); auto; [rewrite app_nil_r; reflexivity|intros e []]. Qed.
+
+  Lemma eff_same_proj s s' : same_proj s s' -> eff s s'.
+  Proof.
+    intros (R&N&L&_). apply (EffSame s s' []); auto; [rewrite N; reflexivity|rewrite app_nil_r; exact L|intros e []].
+  Qed.
+
+  (* shape of a successful follow-up *)
+  Lemma hook_ok_shape p s s' :
+    hook_recv isender p s = Ok s' ->
+    rel s' = rel s /\ nextseq s' = nextseq s /\ exists evs, ilog s' = ilog s ++ evs /\ forall e, In e evs -> benign e.
+  Proof.
+    unfold hook_recv. intros H. apply bind_ok in H. destruct H as (s1 & Hconv & Hmemo).
+    assert (C : rel s1 = rel s /\ nextseq s1 = nextseq s /\ exists evs, ilog s1 = ilog s ++ evs /\ forall e, In e evs -> benign e).
+    { destruct (ip_denom p) as [|t|t|].
+      - inversion Hconv; subst. repeat split. exists []. rewrite app_nil_r. split; [reflexivity|intros e []].
+      - destruct (negb (ip_hex p)); [discriminate|]. cbn [voucher_asset] in Hconv.
+        apply bind_ok in Hconv. destruct Hconv as (v1 & Hv & Hc). apply bind_ok in Hc. destruct Hc as (v2 & Hcc & Hl).
+        inversion Hl; subst s1. clear Hl.
+        pose proof (voucher_to_self_proj _ _ _ _ _ _ Hv) as (R1&N1&L1&_).
+        pose proof (convert_coin_proj _ _ _ _ _ Hcc) as (R2&N2&L2&_).
+        cbn [rel nextseq ilog with_log]. repeat split; try congruence.
+        exists [EvCredit (ip_recv p) t (ip_amt p)]. split; [congruence|].
+        intros e [<-|[]]. left. eauto.
+      - destruct (negb (ip_hex p)); [discriminate|]. cbn [voucher_asset] in Hconv.
+        apply bind_ok in Hconv. destruct Hconv as (v1 & _ & Hc). discriminate.
+      - destruct (negb (ip_hex p)); [discriminate|]. cbn [voucher_asset] in Hconv.
+        apply bind_ok in Hconv. destruct Hconv as (v1 & _ & Hc). discriminate. }
+    destruct C as (R & N & evs & L & B).
+    destruct (ip_memo p) as [| | |f].
+    - inversion Hmemo; subst. split; [auto|split; [auto|eauto]].
+    - inversion Hmemo; subst. split; [auto|split; [auto|eauto]].
+    - discriminate.
+    - destruct (negb (has_acct s1 _)); [discriminate|].
+      destruct f; inversion Hmemo; subst. cbn [rel nextseq ilog with_log]. split; [auto|split; [auto|]].
+      exists (evs ++ [EvCall (isender (ip_src p) (ip_sender p))]). split; [rewrite L, app_assoc; reflexivity|].
+      intros e Hin. apply in_app_or in Hin. destruct Hin as [Hin|[<-|[]]]; [auto|]. right. eauto.
+  Qed.
+
+  Lemma transfer_recv_proj p s s' : transfer_recv p s = Ok s' -> same_proj s s'.
+  Proof.
+    unfold transfer_recv. destruct (_ <=? _); [discriminate|].
+    destruct (ip_denom p); cbn [voucher_asset]; intros H;
+      try (eapply pay_proj; eauto; fail);
+      (eapply same_proj_trans; [apply mint_proj|eapply pay_proj; eauto]).
+  Qed.
+
+  Lemma recv_eff p s : eff s (fst (recv isender p s)).
+  Proof.
+    rewrite recv_unfold. destruct (negb _); [apply eff_refl|].
+    destruct (transfer_recv p s) as [c1|c1] eqn:Et; [|apply eff_refl].
+    destruct (hook_recv isender p c1) as [c2|c2] eqn:Eh; [|apply eff_refl]. cbn [fst].
+    pose proof (transfer_recv_proj _ _ _ Et) as (R1&N1&L1&_).
+    destruct (hook_ok_shape _ _ _ Eh) as (R2 & N2 & evs & L2 & B).
+    apply (EffSame s c2 evs); [congruence| |congruence|exact B]. intros c. rewrite N2, N1. reflexivity.
+  Qed.
+
+  Lemma new_packet_proj s0 s chan sender d amt :
+    same_proj s0 s ->
+    let s' := new_packet s chan sender d amt false in
+    rel s' = rel s0 /\ (forall c', nextseq s' c' = if c' =? chan then nextseq s0 chan + 1 else nextseq s0 c') /\ ilog s' = ilog s0.
+  Proof. intros (R&N&L&_). cbn. rewrite R, N, L. repeat split. Qed.
+
+  Lemma new_packet_evm_proj s0 s chan sender d amt :
+    same_proj s0 s ->
+    let s' := new_packet s chan sender d amt true in
+    rel s' = (chan, nextseq s0 chan) :: rel s0 /\
+    (forall c', nextseq s' c' = if c' =? chan then nextseq s0 chan + 1 else nextseq s0 c') /\
+    ilog s' = ilog s0 ++ [EvSendEvm chan (nextseq s0 chan)].
+  Proof. intros (R&N&L&_). cbn. rewrite R, N, L. repeat split. Qed.
+
+  Ltac chain :=
+    repeat match goal with
+           | H : bind _ _ = Ok _ |- _ => apply bind_ok in H; let x := fresh "x" in let H1 := fresh "P" in let H2 := fresh "Q" in destruct H as (x & H1 & H2)
+           | H : pay _ _ _ _ _ _ = Ok _ |- _ => apply pay_proj in H
+           | H : burn _ _ _ _ _ = Ok _ |- _ => apply burn_proj in H
+           end.
+
+  Ltac finish_send s :=
+    match goal with
+    | Hq : Ok (new_packet ?x _ _ _ _ _) = Ok ?s' |- _ =>
+        inversion Hq; subst s';
+        assert (SP : same_proj s x) by (repeat (eapply same_proj_trans; [eassumption|]); apply same_proj_refl)
+    end.
+
+  Lemma send_from_evm_eff c a d n s s' : send_from_evm c a d n s = Ok s' -> eff s s'.
+  Proof.
+    unfold send_from_evm. destruct (_ <=? _); [discriminate|].
+    destruct d as [|t|t|]; try discriminate.
+    - intros H. chain. finish_send s.
+      destruct (new_packet_proj s _ c a DFx n SP) as (R&N&L). eapply EffSendPlain; eauto.
+    - destruct (negb _); [discriminate|]. intros H. chain. finish_send s.
+      destruct (new_packet_evm_proj s _ c a (DAlias t) n SP) as (R&N&L). eapply EffSendEvm; eauto.
+  Qed.
+
+  Lemma send_plain_eff c a d n s s' : send_plain c a d n s = Ok s' -> eff s s'.
+  Proof.
+    unfold send_plain. destruct (_ <=? _); [discriminate|].
+    destruct d as [|t|t|]; try discriminate.
+    - intros H. chain. finish_send s.
+      destruct (new_packet_proj s _ c a DFx n SP) as (R&N&L). eapply EffSendPlain; eauto.
+    - intros H. chain. finish_send s.
+      destruct (new_packet_proj s _ c a (DOwn t) n SP) as (R&N&L). eapply EffSendPlain; eauto.
+    - destruct (negb _); [discriminate|]. intros H. chain. finish_send s.
+      destruct (new_packet_proj s _ c a (DAlias t) n SP) as (R&N&L). eapply EffSendPlain; eauto.
+  Qed.
+
+  (* the refund either leaves the relation alone (nothing recorded for this packet) or consumes the record and re-converts *)
+  Lemma refund_shape pk s s' :
+    refund pk s = Ok s' ->
+    (in_rel (rel s) (p_chan pk) (p_seq pk) = false /\ same_proj s s') \/
+    (exists t, In (p_chan pk, p_seq pk) (rel s) /\ rel s' = del_rel (rel s) (p_chan pk) (p_seq pk) /\
+               nextseq s' = nextseq s /\ ilog s' = ilog s ++ [EvReconv (p_chan pk) (p_seq pk) (p_sender pk) t (p_amt pk)]).
+  Proof.
+    unfold refund. destruct (p_denom pk) as [|t|t|]; try discriminate; intros H.
+    - apply bind_ok in H. destruct H as (s1 & P1 & H1). apply pay_proj in P1.
+      destruct P1 as (R&N&L&C&S&PO&HA). rewrite R in H1.
+      destruct (in_rel (rel s) _ _) eqn:E; [discriminate|]. inversion H1; subst. left. split; [reflexivity|].
+      repeat split; assumption.
+    - apply bind_ok in H. destruct H as (s1 & P1 & H1). apply bind_ok in H1. destruct H1 as (s2 & P2 & H2).
+      assert (SP : same_proj s s2).
+      { eapply same_proj_trans; [apply mint_proj|]. eapply same_proj_trans; [eapply pay_proj; eassumption|].
+        eapply voucher_to_self_proj; eassumption. }
+      destruct SP as (R&N&L&C&S&PO&HA). rewrite R in H2.
+      destruct (in_rel (rel s) _ _) eqn:E.
+      + apply bind_ok in H2. destruct H2 as (s3 & P3 & H3). apply convert_coin_proj in P3.
+        destruct P3 as (R3&N3&L3&_). inversion H3; subst s'. cbn [rel nextseq ilog with_rel with_log] in *.
+        right. exists t. split; [apply in_rel_In; exact E|]. repeat split; congruence.
+      + inversion H2; subst. left. split; [reflexivity|]. repeat split; assumption.
+    - apply bind_ok in H. destruct H as (s1 & P1 & H1). apply bind_ok in H1. destruct H1 as (s2 & P2 & H2).
+      apply bind_ok in H2. destruct H2 as (s3 & P3 & H3).
+      assert (SP : same_proj s s3).
+      { eapply same_proj_trans; [apply mint_proj|]. eapply same_proj_trans; [eapply pay_proj; eassumption|].
+        eapply same_proj_trans; [eapply pay_proj; eassumption|].
+        eapply same_proj_trans; [apply mint_proj|]. eapply pay_proj; eassumption. }
+      destruct SP as (R&N&L&C&S&PO&HA). rewrite R in H3.
+      destruct (in_rel (rel s) _ _) eqn:E.
+      + apply bind_ok in H3. destruct H3 as (s4 & P4 & H4). apply convert_coin_proj in P4.
+        destruct P4 as (R4&N4&L4&_). inversion H4; subst s'. cbn [rel nextseq ilog with_rel with_log] in *.
+        right. exists t. split; [apply in_rel_In; exact E|]. repeat split; congruence.
+      + inversion H3; subst. left. split; [reflexivity|]. repeat split; assumption.
+  Qed.
+
+  Lemma refund_eff pk s s' : refund pk s = Ok s' -> eff s s'.
+  Proof.
+    intros H. destruct (refund_shape _ _ _ H) as [[_ SP]|(t & Hin & R & N & L)].
+    - apply eff_same_proj. exact SP.
+    - eapply EffReconv; eauto. intros c'. rewrite N. reflexivity.
+  Qed.
+
+  Lemma cb_eff (cb : packet -> ist -> result ist) :
+    (forall pk x x', cb pk x = Ok x' -> eff x x') ->
+    forall pk s (f : ist -> ist), (forall x, rel (f x) = rel x /\ nextseq (f x) = nextseq x /\ ilog (f x) = ilog x) -> eff s (fst (tx (fun x => cb pk (f x)) s)).
+  Proof.
+    intros Hcb pk s f Hf. unfold tx, branch, commit, discard.
+    destruct (cb pk (f s)) as [x'|x'] eqn:E; cbn [fst]; [|apply eff_refl].
+    specialize (Hcb _ _ _ E). destruct (Hf s) as (R&N&L).
+    destruct Hcb as [evs R' N' L' B|c R' N' L'|c R' N' L'|c q who t n I R' N' L'].
+    - apply (EffSame s x' evs); [congruence| |congruence|exact B]. intros c. rewrite N', N. reflexivity.
+    - rewrite N, R, L in *. eapply EffSendEvm; eauto.
+    - rewrite N, R, L in *. eapply EffSendPlain; eauto.
+    - rewrite R, L in *. eapply EffReconv; eauto. intros c'. rewrite N', N. reflexivity.
+  Qed.
+
+  Lemma on_ack_eff ok pk x x' : on_ack pk ok x = Ok x' -> eff x x'.
+  Proof. unfold on_ack. destruct ok; [intros H; inversion H; apply eff_refl|apply refund_eff]. Qed.
+
+  Lemma step_eff s o : eff s (step isender s o).
+  Proof.
+    destruct o as [c a d n|c a d n|p|c q ok|c q|c q ok|c q|t]; cbn [step].
+    - unfold tx, branch, commit, discard. destruct (send_from_evm c a d n s) eqn:E; cbn [fst]; [eapply send_from_evm_eff; eauto|apply eff_refl].
+    - unfold tx, branch, commit, discard. destruct (send_plain c a d n s) eqn:E; cbn [fst]; [eapply send_plain_eff; eauto|apply eff_refl].
+    - apply recv_eff.
+    - unfold core_deliver. destruct (find_pk _ _ _) as [pk|]; [|apply eff_refl].
+      apply (cb_eff (fun pk => on_ack pk ok)); [intros; eapply on_ack_eff; eauto|intros x; repeat split].
+    - unfold core_deliver. destruct (find_pk _ _ _) as [pk|]; [|apply eff_refl].
+      apply (cb_eff on_timeout); [intros; eapply refund_eff; eauto|intros x; repeat split].
+    - unfold raw_deliver. destruct (find_pk _ _ _) as [pk|]; [|apply eff_refl].
+      apply (cb_eff (fun pk => on_ack pk ok) (fun pk x x' H => on_ack_eff ok pk x x' H) pk s (fun x => x)). intros x. repeat split.
+    - unfold raw_deliver. destruct (find_pk _ _ _) as [pk|]; [|apply eff_refl].
+      apply (cb_eff on_timeout (fun pk x x' H => refund_eff pk x x' H) pk s (fun x => x)). intros x. repeat split.
+    - apply (EffSame _ _ []); auto; [rewrite app_nil_r; reflexivity|intros e []].
+  Qed.
+
+  (* the invariant *)
+  Definition inv (s : ist) : Prop :=
+    NoDup (rel s) /\
+    (forall c q, In (c, q) (rel s) -> q < nextseq s c) /\
+    (forall c q, (count (is_sendevm c q) (ilog s) <= 1)%nat) /\
+    (forall c q, (0 < count (is_sendevm c q) (ilog s))%nat -> q < nextseq s c) /\
+    (forall c q, (count (is_reconv c q) (ilog s) + (if in_rel (rel s) c q then 1 else 0) <= count (is_sendevm c q) (ilog s))%nat).
+
+  Lemma benign_counts evs c q :
+    (forall e, In e evs -> benign e) -> count (is_sendevm c q) evs = 0%nat /\ count (is_reconv c q) evs = 0%nat.
+  Proof.
+    induction evs as [|e r IH]; intros H; [split; reflexivity|].
+    destruct IH as [I1 I2]; [intros; apply H; right; assumption|].
+    unfold count in *. cbn [filter].
+    destruct (H e (or_introl eq_refl)) as [(a&b&n&->)|(a&b&->)]; cbn; auto.
+  Qed.
+
+  Lemma in_rel_cons r c q c' q' : in_rel ((c, q) :: r) c' q' = ((c' =? c) && (q' =? q)) || in_rel r c' q'.
+  Proof. reflexivity. Qed.
+
+  Lemma in_rel_del_other r c q c' q' : (c', q') <> (c, q) -> in_rel (del_rel r c q) c' q' = in_rel r c' q'.
+  Proof.
+    intros Hne. destruct (in_rel r c' q') eqn:E.
+    - apply in_rel_In. apply in_del_rel. split; [apply in_rel_In; exact E|exact Hne].
+    - destruct (in_rel (del_rel r c q) c' q') eqn:E2; [|reflexivity].
+      apply in_rel_In in E2. apply in_del_rel in E2. destruct E2 as [E2 _]. apply in_rel_In in E2. congruence.
+  Qed.
+
+  Lemma NoDup_del_rel r c q : NoDup r -> NoDup (del_rel r c q).
+  Proof. unfold del_rel. apply NoDup_filter. Qed.
+
+  Lemma inv_eff s s' : inv s -> eff s s' -> inv s'.
+  Proof.
+    intros (I1 & I2 & I3 & I4 & I5) E.
+    destruct E as [evs R N L B|c R N L|c R N L|c q who t n Hin R N L]; unfold inv; rewrite R, L.
+    - repeat split; auto.
+      + intros c q Hi. rewrite N. auto.
+      + intros c q. rewrite count_app. destruct (benign_counts evs c q B) as [-> _]. rewrite Nat.add_0_r. auto.
+      + intros c q. rewrite count_app. destruct (benign_counts evs c q B) as [-> _]. rewrite Nat.add_0_r, N. auto.
+      + intros c q. rewrite !count_app. destruct (benign_counts evs c q B) as [-> ->]. rewrite !Nat.add_0_r. auto.
+    - set (q0 := nextseq s c) in *.
+      assert (Hfresh : ~ In (c, q0) (rel s)) by (intros Hi; specialize (I2 _ _ Hi); subst q0; lia).
+      assert (Hzero : count (is_sendevm c q0) (ilog s) = 0%nat).
+      { destruct (count (is_sendevm c q0) (ilog s)) eqn:E; [reflexivity|].
+        assert (q0 < nextseq s c) by (apply I4; rewrite E; lia). subst q0. lia. }
+      repeat split.
+      + constructor; assumption.
+      + intros c' q' [Heq|Hi]; rewrite N.
+        * inversion Heq; subst. rewrite Z.eqb_refl. lia.
+        * specialize (I2 _ _ Hi). destruct (Z.eqb_spec c' c); [subst; fold q0; lia|lia].
+      + intros c' q'. rewrite count_app. unfold count at 2. cbn [filter is_sendevm].
+        destruct ((c =? c') && (q0 =? q')) eqn:E; cbn [length].
+        * apply andb_true_iff in E. destruct E as [E1 E2]. apply Z.eqb_eq in E1, E2. subst c' q'. rewrite Hzero. lia.
+        * specialize (I3 c' q'). lia.
+      + intros c' q'. rewrite count_app. unfold count at 2. cbn [filter is_sendevm]. rewrite N.
+        destruct ((c =? c') && (q0 =? q')) eqn:E; cbn [length].
+        * apply andb_true_iff in E. destruct E as [E1 E2]. apply Z.eqb_eq in E1, E2. subst c' q'. rewrite Z.eqb_refl. lia.
+        * intros Hc. rewrite Nat.add_0_r in Hc. specialize (I4 _ _ Hc). destruct (Z.eqb_spec c' c); [subst; fold q0; lia|lia].
+      + intros c' q'. rewrite !count_app. unfold count at 2 4. cbn [filter is_sendevm is_reconv length]. rewrite in_rel_cons.
+        destruct ((c =? c') && (q0 =? q')) eqn:E; cbn [length].
+        * apply andb_true_iff in E. destruct E as [E1 E2]. apply Z.eqb_eq in E1, E2. subst c' q'.
+          rewrite !Z.eqb_refl. cbn [andb orb]. specialize (I5 c q0). rewrite Hzero in *. lia.
+        * assert (((c' =? c) && (q' =? q0)) = false) as ->.
+          { rewrite (Z.eqb_sym c' c), (Z.eqb_sym q' q0). exact E. }
+          cbn [orb]. specialize (I5 c' q'). lia.
+    - repeat split; auto.
+      + intros c' q' Hi. rewrite N. specialize (I2 _ _ Hi). destruct (Z.eqb_spec c' c); [subst; lia|lia].
+      + intros c' q' Hc. rewrite N. specialize (I4 _ _ Hc). destruct (Z.eqb_spec c' c); [subst; lia|lia].
+    - assert (Hrel : in_rel (rel s) c q = true) by (apply in_rel_In; exact Hin).
+      repeat split.
+      + apply NoDup_del_rel. exact I1.
+      + intros c' q' Hi. apply in_del_rel in Hi. rewrite N. apply I2. tauto.
+      + intros c' q'. rewrite count_app. unfold count at 2. cbn [filter is_sendevm length]. rewrite Nat.add_0_r. auto.
+      + intros c' q'. rewrite count_app. unfold count at 2. cbn [filter is_sendevm length]. rewrite Nat.add_0_r, N. auto.
+      + intros c' q'. rewrite !count_app. unfold count at 2 4. cbn [filter is_sendevm is_reconv length].
+        destruct ((c =? c') && (q =? q')) eqn:E; cbn [length].
+        * apply andb_true_iff in E. destruct E as [E1 E2]. apply Z.eqb_eq in E1, E2. subst c' q'.
+          rewrite in_rel_del. specialize (I5 c q). rewrite Hrel in I5. lia.
+        * rewrite in_rel_del_other.
+          -- specialize (I5 c' q'). lia.
+          -- intros Heq. inversion Heq; subst. rewrite !Z.eqb_refl in E. discriminate.
+  Qed.
+
+  Lemma inv_run ops : forall s, inv s -> inv (run isender ops s).
+  Proof.
+    induction ops as [|o r IH]; intros s Hs; [exact Hs|]. cbn [run fold_left].
+    apply IH. eapply inv_eff; [exact Hs|apply step_eff].
+  Qed.
+
+  Lemma inv_fresh s : rel s = [] -> ilog s = [] -> inv s.
+  Proof.
+    intros R L. unfold inv. rewrite R, L.
+    split; [constructor|]. split; [intros ? ? []|]. split; [intros; cbn; lia|].
+    split; [intros c q H; cbn in H; lia|]. intros; cbn; lia.
+  Qed.
+
+  (* per (channel, sequence) the ERC-20 re-conversion happens at most once, and only for a transfer started from the EVM *)
+  Lemma refund_once s0 ops c q :
+    inv s0 ->
+    let s := run isender ops s0 in
+    (count (is_reconv c q) (ilog s) <= 1)%nat /\
+    ((0 < count (is_reconv c q) (ilog s))%nat -> count (is_sendevm c q) (ilog s) = 1%nat).
+  Proof.
+    intros H. destruct (inv_run ops s0 H) as (_ & _ & I3 & _ & I5). cbn zeta.
+    specialize (I3 c q). specialize (I5 c q). split; [lia|]. intros. destruct (in_rel _ _ _); lia.
+  Qed.
+
+  (* every memo call that left a trace ran as a derived sender *)
+  Lemma eff_calls s s' a : eff s s' -> In (EvCall a) (ilog s') -> In (EvCall a) (ilog s) \/ exists c sd, a = isender c sd.
+  Proof.
+    intros E Hin. destruct E as [evs R N L B|c R N L|c R N L|c q who t n I R N L]; rewrite L in Hin;
+      try (apply in_app_or in Hin; destruct Hin as [Hin|Hin]); auto.
+    - destruct (B _ Hin) as [(r&t&n&E)|(c0&sd&E)]; [discriminate|]. inversion E. eauto.
+    - destruct Hin as [E|[]]; discriminate.
+    - destruct Hin as [E|[]]; discriminate.
+  Qed.
+
+  Lemma run_calls ops : forall s a,
+    In (EvCall a) (ilog (run isender ops s)) -> In (EvCall a) (ilog s) \/ exists c sd, a = isender c sd.
+  Proof.
+    induction ops as [|o r IH]; intros s a Hin; [left; exact Hin|]. cbn [run fold_left] in Hin.
+    destruct (IH _ _ Hin) as [H|H]; [|right; exact H]. eapply eff_calls; [apply step_eff|exact H].
+  Qed.
+
+  (** ** tracking record removal *)
+
+  Lemma refund_removes pk s s' : refund pk s = Ok s' -> in_rel (rel s') (p_chan pk) (p_seq pk) = false.
+  Proof.
+    intros H. destruct (refund_shape _ _ _ H) as [[E (R&_)]|(t & _ & R & _)]; rewrite R; [exact E|apply in_rel_del].
+  Qed.
+
+  Lemma find_pk_spec l c q pk : find_pk l c q = Some pk -> p_chan pk = c /\ p_seq pk = q.
+  Proof.
+    unfold find_pk. intros H. apply find_some in H. destruct H as [_ H]. unfold pk_is in H.
+    apply andb_true_iff in H. destruct H as [H1 H2]. apply Z.eqb_eq in H1, H2. auto.
+  Qed.
+
+  (* failure acknowledgement and timeout, delivered by the core: unless the delivery itself fails (and changes
+     nothing), the record of (channel, sequence) is gone afterwards *)
+  Lemma failure_or_timeout_removes c q s :
+    let s1 := core_deliver (fun pk => on_ack pk false) c q s in
+    let s2 := core_deliver on_timeout c q s in
+    (s1 = s \/ in_rel (rel s1) c q = false) /\ (s2 = s \/ in_rel (rel s2) c q = false).
+  Proof.
+    cbn zeta. unfold core_deliver. destruct (find_pk (commits s) c q) as [pk|] eqn:F; [|split; left; reflexivity].
+    destruct (find_pk_spec _ _ _ _ F) as [<- <-].
+    unfold tx, branch, commit, discard, on_ack, on_timeout.
+    destruct (refund pk (with_commits s _)) as [x|x] eqn:E; cbn [fst]; [|split; left; reflexivity].
+    split; right; eapply refund_removes; eauto.
+  Qed.
+
+  (* success acknowledgement: the relation set is left exactly as it was *)
+  Lemma success_keeps_relation c q s : rel (core_deliver (fun pk => on_ack pk true) c q s) = rel s.
+  Proof.
+    unfold core_deliver. destruct (find_pk _ _ _); [|reflexivity]. reflexivity.
+  Qed.
+End Runs.
+
+(* ------------------------------------------------------------------------------------------ *)
+(** * concrete runs: refutation of "record removed on success", non-vacuity *)
+
+Definition ex_isender (c sd : Z) : Z := 1000 + 100 * c + sd.
+Definition ex_bal : ledger := fun k =>
+  if key_eqb k (0, AErc, 0) then 500 else if key_eqb k (Supply, AErc, 0) then 500 else
+  if key_eqb k (ModErc20, ACoin, 0) then 500 else if key_eqb k (Supply, ACoin, 0) then 500 else
+  if key_eqb k (ModTransfer, AVoucher, 0) then 400 else if key_eqb k (Supply, AVoucher, 0) then 400 else
+  if key_eqb k (Escrow 0, AFx, 0) then 50 else 0.
+Definition ex_state : ist :=
+  {| ibal := ex_bal; rel := []; nextseq := fun _ => 1; commits := []; sent := []; pair_on := fun _ => true;
+     has_acct := fun a => a =? 1700; ilog := [] |}.
+
+Lemma record_kept_on_success_witness :
+  let s := run ex_isender [SendFromEvm 0 0 (DAlias 0) 30; Ack 0 1 true] ex_state in
+  in_rel (rel s) 0 1 = true /\ find_pk (commits s) 0 1 = None /\ ibal s (0, AErc, 0) = 470.
+Proof. vm_compute. repeat split. Qed.
+
+Lemma c19_nonvacuous :
+  (* timeout of an EVM-started transfer: refunded as ERC-20, record gone; the replay refunds coins (core's job to stop) but never ERC-20 again *)
+  (let s := run ex_isender [SendFromEvm 0 0 (DAlias 0) 30; Timeout 0 1; TimeoutRaw 0 1; AckRaw 0 1 false] ex_state in
+   ibal s (0, AErc, 0) = 500 /\ rel s = [] /\ count (is_reconv 0 1) (ilog s) = 1%nat /\ ibal s (0, ACoin, 0) = 60) /\
+  (* inbound own voucher to a hex receiver with a memo call: credited as ERC-20, call ran as the derived sender *)
+  (let p := {| ip_src := 7; ip_dst := 0; ip_sender := 0; ip_denom := DOwn 10; ip_amt := 25; ip_addr_ok := true; ip_hex := true; ip_recv := 2; ip_memo := MemoCall false |} in
+   let (s, ok) := recv ex_isender p ex_state in
+   ok = true /\ ibal s (2, AErc, 10) = 25 /\ ibal s (2, ACoin, 10) = 0 /\ ilog s = [EvCredit 2 10 25; EvCall 1700]) /\
+  (* the same packet with a reverting call, to a bech32 receiver, or for an alias voucher: error acknowledgement, nothing changes *)
+  (let p := {| ip_src := 7; ip_dst := 0; ip_sender := 0; ip_denom := DOwn 10; ip_amt := 25; ip_addr_ok := true; ip_hex := true; ip_recv := 2; ip_memo := MemoCall true |} in
+   snd (recv ex_isender p ex_state) = false) /\
+  (let p := {| ip_src := 7; ip_dst := 0; ip_sender := 0; ip_denom := DAlias 0; ip_amt := 25; ip_addr_ok := true; ip_hex := true; ip_recv := 2; ip_memo := NoMemo |} in
+   snd (recv ex_isender p ex_state) = false) /\
+  (* native FX out of escrow to a bech32 receiver *)
+  (let p := {| ip_src := 7; ip_dst := 0; ip_sender := 0; ip_denom := DFx; ip_amt := 20; ip_addr_ok := true; ip_hex := false; ip_recv := 2; ip_memo := NoMemo |} in
+   let (s, ok) := recv ex_isender p ex_state in ok = true /\ ibal s (2, AFx, 0) = 20).
+Proof. vm_compute. repeat split. Qed.
+
+(* no impersonation, under the stated disjointness of derived senders from local accounts *)
+Lemma no_impersonation (isender : Z -> Z -> Z) (is_local : Z -> bool) :
+  (forall c sd, is_local (isender c sd) = false) ->
+  forall ops s a, In (EvCall a) (ilog (run isender ops s)) -> ~ In (EvCall a) (ilog s) -> is_local a = false.
+Proof.
+  intros H ops s a Hin Hnot. destruct (run_calls isender ops s a Hin) as [Hc|(c & sd & Hc)]; [contradiction|subst; apply H].
+Qed.
+
+Lemma no_impersonation_failing_calls (isender : Z -> Z -> Z) (is_local : Z -> bool) :
+  (forall c sd, is_local (isender c sd) = false) ->
+  forall p s a, In (EvCall a) (ilog (written (hook_recv isender p s))) -> ~ In (EvCall a) (ilog s) -> is_local a = false.
+Proof.
+  intros H p s a Hin Hnot. destruct (hook_call_sender isender p s a Hin) as [Hc|Hc]; [contradiction|subst; apply H].
+Qed.
+
+Lemma refund_once_fresh isender s0 ops c q :
+  rel s0 = [] -> ilog s0 = [] ->
+  let s := run isender ops s0 in
+  (count (is_reconv c q) (ilog s) <= 1)%nat /\
+  ((0 < count (is_reconv c q) (ilog s))%nat -> count (is_sendevm c q) (ilog s) = 1%nat).
+Proof. intros R L. apply refund_once. apply inv_fresh; assumption. Qed.
+
+Lemma record_kept_on_success_refuted :
+  exists isender s0 ops c q,
+    rel s0 = [] /\ ilog s0 = [] /\
+    count (is_sendevm c q) (ilog (run isender ops s0)) = 1%nat /\      (* an EVM-started transfer … *)
+    find_pk (commits (run isender ops s0)) c q = None /\                (* … whose success acknowledgement has been processed … *)
+    in_rel (rel (run isender ops s0)) c q = true.                       (* … still has its tracking record *)
+Proof.
+  exists ex_isender, ex_state, [SendFromEvm 0 0 (DAlias 0) 30; Ack 0 1 true], 0, 1. vm_compute. repeat split.
+Qed.
